@@ -20,7 +20,7 @@ from .c07 import ALPH, Enc, build_obj, dump_obj, oerr
 
 PROP = "C08"
 CLAIMED = True
-COQ_MODULES = ["C08_Check", "C08_Proofs"]
+COQ_MODULES = ["C08_Check", "C08_Proofs", "C08_Proofs2"]
 PROPERTY_MODULE = "C08_Property"
 ALLOWED_AXIOMS = []
 RULE = (
@@ -54,13 +54,21 @@ ASSUMPTIONS = [
 # is not currently permitted"). False = holds does not check such queries (agree compares the exception
 # kinds); True = holds demands "empty result + warning, no exception"; the failures then carry
 # "no-sample-selected=True" in their signature (candidate known finding).
-STRICT_EMPTY_SAMPLE_SELECTION = False
+STRICT_EMPTY_SAMPLE_SELECTION = os.environ.get("HV_C08_STRICT_EMPTY_SAMPLE_SELECTION", "0") == "1"
+
+# Switch for the integrator: Genotypes.read leaves an array of shape (0, 0, 0) beside the samples it found when
+# nothing matched (VCF/BCF); subset(samples=...) on that object raises IndexError as soon as one requested
+# sample is known (same for variants= once the object lists variants).  False = holds skips subset() calls made
+# on such an object (agree compares the exception kind); True = holds demands the requested samples/variants
+# there too (model = the tree with fixes/C08_subset_after_empty_read.patch); the failures carry
+# "subset-on-array-without-cells=True" in their signature.
+STRICT_SUBSET_AFTER_EMPTY_READ = os.environ.get("HV_C08_STRICT_SUBSET_AFTER_EMPTY_READ", "0") == "1"
 
 # ----------------------------------------------------------------------------
 # content and queries
 
 
-def gen_content(rng, pmax=8, nmax=5):
+def gen_content(rng, pmax=8, nmax=5, allow_unsorted=True):
     n = int(rng.integers(1, nmax + 1))
     p = int(rng.integers(1, pmax + 1))
     if rng.random() < 0.04:
@@ -100,7 +108,68 @@ def gen_content(rng, pmax=8, nmax=5):
             row.append([a, b, ph])
         variants.append([ids[j], contigs[cidx[j]], pos, alleles])
         rows.append(row)
-    return {"samples": samples, "variants": variants, "rows": rows, "planes": 3}
+    # file order: PLINK2 and un-indexed VCF/BCF files need not be coordinate-sorted
+    r = rng.random()
+    layout = "sorted"
+    if allow_unsorted and p > 1 and r < 0.45:
+        layout = ["unsorted-pos", "multi-block", "shuffled"][int(rng.integers(0, 3))]
+        if layout == "shuffled":
+            order = rng.permutation(p).tolist()
+        elif layout == "unsorted-pos":     # contigs stay in one block each, positions within a block in any order
+            order = []
+            for ci in sorted(set(cidx)):
+                blk = [j for j in range(p) if cidx[j] == ci]
+                order += [blk[i] for i in rng.permutation(len(blk)).tolist()]
+        else:                              # sorted runs, cut at random points and re-arranged: a contig occurs in several blocks
+            cuts = sorted(set(rng.integers(1, p, size=int(rng.integers(1, 4))).tolist()))
+            runs = [list(range(a, b)) for a, b in zip([0] + cuts, cuts + [p])]
+            order = [j for i in rng.permutation(len(runs)).tolist() for j in runs[i]]
+        variants = [variants[j] for j in order]
+        rows = [rows[j] for j in order]
+    c = {"samples": samples, "variants": variants, "rows": rows, "planes": 3}
+    # tabix/csi need contiguous contigs and non-decreasing positions; a sorted file is left un-indexed now and then
+    c["indexed"] = bool(indexable(c) and rng.random() < 0.88)
+    return c
+
+
+def indexable(c):
+    """contigs in one block each and positions non-decreasing within a block (what tabix / csi indexing needs)"""
+    seen, last = [], None
+    for v in c["variants"]:
+        if not seen or v[1] != seen[-1]:
+            if v[1] in seen:
+                return False
+            seen.append(v[1])
+            last = None
+        if last is not None and v[2] < last:
+            return False
+        last = v[2]
+    return True
+
+
+def is_indexed(c):
+    return bool(c.get("indexed", True)) and indexable(c)
+
+
+def vcf_has_index(c, q):
+    """the VCF/BCF file of this case gets a .tbi/.csi (else the VCF reader is given the query without its region)"""
+    return is_indexed(c) and q.get("vfmt", "vcf.gz") != "vcf"
+
+
+def vcf_query(c, q):
+    return q if vcf_has_index(c, q) else dict(q, region=None)
+
+
+def noncontiguous(c, r):
+    """the records of region r (position semantics) do not form one run in file order"""
+    if r is None:
+        return False
+    ctg, a, b = r
+    hit = [v[1] == ctg and (a is None or v[2] >= a) and (b is None or v[2] <= b) for v in c["variants"]]
+    if True not in hit:
+        return False
+    first, last = hit.index(True), len(hit) - 1 - hit[::-1].index(True)
+    return not all(hit[first:last + 1])
 
 
 def gen_query(rng, c):
@@ -144,6 +213,8 @@ def gen_query(rng, c):
     if rng.random() < 0.7:
         q["chunk"] = int(rng.integers(1, p + 2))
     q["vfmt"] = "bcf" if rng.random() < 0.3 else "vcf.gz"     # .bcf + .csi or .vcf.gz + .tbi
+    if not is_indexed(c) and rng.random() < 0.3:
+        q["vfmt"] = "vcf"                                      # plain text (only without an index)
     return q
 
 
@@ -167,14 +238,16 @@ def write_vcf(c, path):
             h.contigs.add(v[1])
     h.add_meta("FORMAT", items=[("ID", "GT"), ("Number", 1), ("Type", "String"), ("Description", "Genotype")])
     h.add_samples(c["samples"])
-    with pysam.VariantFile(path, "wb" if path.endswith(".bcf") else "wz", header=h) as vf:
+    mode = "wb" if path.endswith(".bcf") else "wz" if path.endswith(".gz") else "w"
+    with pysam.VariantFile(path, mode, header=h) as vf:
         for v, row in zip(c["variants"], c["rows"]):
             rec = vf.new_record(contig=v[1], start=v[2] - 1, stop=v[2] - 1 + len(v[3][0]), alleles=tuple(v[3]), id=v[0])
             for s, call in zip(c["samples"], row):
                 rec.samples[s]["GT"] = tuple(None if x == 255 else x for x in call[:2])
                 rec.samples[s].phased = bool(call[2])
             vf.write(rec)
-    pysam.tabix_index(path, preset="bcf" if path.endswith(".bcf") else "vcf", force=True)
+    if is_indexed(c) and mode != "w":     # == vcf_has_index
+        pysam.tabix_index(path, preset="bcf" if path.endswith(".bcf") else "vcf", force=True)
 
 
 def write_pgen(c, path):
@@ -285,6 +358,12 @@ def selects(c, q):
     if q["chunk"] is not None:
         out.append("chunk=" + ("1" if q["chunk"] == 1 else ">p" if q["chunk"] > len(vs) else "mid"))
     out.append("vfmt=" + q.get("vfmt", "vcf.gz"))
+    out.append("file-order=" + ("sorted" if indexable(c) else "multi-block-contig" if len({v[1] for v in vs}) <
+                                 sum(1 for j, v in enumerate(vs) if not j or vs[j - 1][1] != v[1]) else "unsorted-positions"))
+    if not vcf_has_index(c, q):
+        out.append("vcf-unindexed")
+    if noncontiguous(c, q["region"]):
+        out.append("region-matches-not-contiguous")
     if not vs:
         out.append("p=0")
     if not keep:
@@ -343,6 +422,13 @@ class Read(Relation):
                 for mx in (None, 0, 1):
                     for ch in (None, 1):
                         out.append({"content": c, "q": {"region": r, "samples": None, "ids": ids, "max": mx, "chunk": ch}})
+        # the same records in every file order of a 4-record file (un-indexed VCF; the PVAR need not be sorted)
+        import itertools
+        for perm in itertools.permutations(range(4)):
+            cu = dict(c, variants=[c["variants"][j] for j in perm], rows=[c["rows"][j] for j in perm], indexed=False)
+            for r in (["1", None, None], ["2", None, None], ["1", 10, 20], ["1", 20, None], ["1", 11, 19]):
+                for ids in (None, ["v3", "v1"]):
+                    out.append({"content": cu, "q": {"region": r, "samples": None, "ids": ids, "max": None, "chunk": None}})
         return out
 
     def run_impl(self, inp):
@@ -354,7 +440,7 @@ class Read(Relation):
             vp, pp = os.path.join(d, "x." + q.get("vfmt", "vcf.gz")), os.path.join(d, "x.pgen")
             write_vcf(c, vp)
             write_pgen(c, pp)
-            return {"vcf": observe(GenotypesVCF, vp, q, {}),
+            return {"vcf": observe(GenotypesVCF, vp, vcf_query(c, q), {}),
                     "pgen": observe(GenotypesPLINK, pp, q, {"chunk_size": q["chunk"]})}
         finally:
             shutil.rmtree(d, ignore_errors=True)
@@ -381,7 +467,7 @@ class Read(Relation):
 
         ok = isinstance(obs, dict) and "vcf" in obs
         return (f"(mkrc {g} {qt} {L.opt(q['chunk'], L.z)} {L.b(STRICT_EMPTY_SAMPLE_SELECTION)} "
-                f"{fobs(obs['vcf'] if ok else None)} {fobs(obs['pgen'] if ok else None)})")
+                f"{L.b(not vcf_has_index(c, q))} {fobs(obs['vcf'] if ok else None)} {fobs(obs['pgen'] if ok else None)})")
 
     def nontrivial(self, inp, obs):
         return selects(inp["content"], inp["q"])[1]
@@ -429,6 +515,12 @@ class Read(Relation):
                     yield {"content": c, "q": dict(q, region=[ctg, 1, max(1, a + d)])}
         for m in (0, 1, len(c["variants"])):
             yield {"content": c, "q": dict(q, max=m, ids=None)}
+        p = len(c["variants"])
+        for _ in range(6):          # other file orders of the same records
+            perm = rng.permutation(p).tolist()
+            cu = dict(c, variants=[c["variants"][j] for j in perm], rows=[c["rows"][j] for j in perm], indexed=False)
+            for ctg in sorted({v[1] for v in c["variants"]}):
+                yield {"content": cu, "q": dict(q, region=[ctg, None, None])}
 
     def signature(self, inp, obs):
         tags, _ = selects(inp["content"], inp["q"])
@@ -556,7 +648,344 @@ class Subset(Relation):
         return f"subset result is not the requested samples/variants in the requested order ({inp['kind']})"
 
 
-RELATIONS = [Read(), Subset()]
+# ----------------------------------------------------------------------------
+# read(), read(restricted), read()+subset(), then a sequence of subset() calls
+
+
+def gen_request(rng, names, gone, unknown):
+    """one samples= / variants= argument of subset(): a tuple over the object's current names"""
+    r = rng.random()
+    names = list(dict.fromkeys(names))
+    if r < 0.22:
+        return None, "None"
+    if r < 0.47 and names:               # every name, in another order: nothing is dropped
+        return [names[i] for i in rng.permutation(len(names)).tolist()], "reorder-all"
+    if r < 0.75 and names:               # a proper part, in any order
+        k = int(rng.integers(1, len(names) + 1))
+        return [names[i] for i in rng.permutation(len(names))[:k].tolist()], "part"
+    if r < 0.87:                         # with names the object does not have (never had / had before an earlier subset)
+        k = int(rng.integers(0, len(names) + 1))
+        pick = [names[i] for i in rng.permutation(len(names))[:k].tolist()]
+        pool = list(gone) + list(unknown)
+        extra = [pool[int(i)] for i in rng.integers(0, len(pool), size=int(rng.integers(1, 3)))]
+        pick += extra
+        return [pick[i] for i in rng.permutation(len(pick)).tolist()], "with-unknown"
+    if r < 0.94 and names:               # a name twice
+        k = int(rng.integers(1, len(names) + 1))
+        pick = [names[i] for i in rng.permutation(len(names))[:k].tolist()]
+        pick.insert(int(rng.integers(0, len(pick) + 1)), pick[int(rng.integers(0, len(pick)))])
+        return pick, "repeats"
+    return [], "empty"
+
+
+def gen_ops(rng, c, q):
+    """1-4 subset() calls; the names are drawn from what the object holds at that point (simulated on names only)"""
+    cur_s = [x for x in c["samples"] if q["samples"] is None or x in q["samples"]]
+    cur_v = []
+    for v in c["variants"]:
+        if q["region"] is not None:
+            ctg, a, b = q["region"]
+            if not (v[1] == ctg and (a is None or v[2] >= a) and (b is None or v[2] <= b)):
+                continue
+        if q["ids"] is not None and v[0] not in q["ids"]:
+            continue
+        cur_v.append(v[0])
+    if q["ids"] is None and q["max"] is not None:
+        cur_v = cur_v[: q["max"]]
+    all_s, all_v = list(c["samples"]), [v[0] for v in c["variants"]]
+    ops = []
+    for _ in range(int(rng.choice([1, 2, 2, 3, 3, 4]))):
+        S, ks = gen_request(rng, cur_s, [x for x in all_s if x not in cur_s], ["zz"])
+        V, kv = gen_request(rng, cur_v, [x for x in all_v if x not in cur_v], ["nope", "v77"])
+        if S is None and V is None and rng.random() < 0.8:
+            if rng.random() < 0.5:
+                S, ks = gen_request(rng, cur_s, [x for x in all_s if x not in cur_s], ["zz"])
+            else:
+                V, kv = gen_request(rng, cur_v, [x for x in all_v if x not in cur_v], ["nope", "v77"])
+        inplace = bool(rng.random() < 0.5)
+        follow = bool(rng.random() < 0.5)
+        ops.append({"S": S, "V": V, "inplace": inplace, "follow": follow})
+        if inplace or follow:
+            if S is not None:
+                cur_s = [x for x in S if x in cur_s]
+            if V is not None:
+                cur_v = [x for x in V if x in cur_v]
+    return ops
+
+
+def req_kind(req, names):
+    if req is None:
+        return "None"
+    known = [x for x in req if x in names]
+    out = ("empty" if not req else "none-known" if not known else
+           "reorder-all" if sorted(known) == sorted(names) and known != list(names) and len(known) == len(names) else
+           "all-same-order" if known == list(names) else
+           "part-file-order" if known == [x for x in names if x in known] else "part-permuted")
+    if len(known) < len(req):
+        out += "+unknown"
+    if len(set(req)) < len(req):
+        out += "+repeats"
+    return out
+
+
+class Seq(Relation):
+    name = "seq"
+    coq_module = "C08_Check"
+    coq_check = "check_seq"
+    coq_case_type = "qcase"
+    coq_model = "model_seq"
+    coq_imports = ["C07_Model", "C08_Model"]
+    budget = {"quick": 450, "thorough": 8000}
+    max_cases_per_shard = 100
+    anchors = [
+        ("haptools/data/genotypes.py", "Genotypes.subset"),
+        ("haptools/data/genotypes.py", "Genotypes.index"),
+        ("haptools/data/genotypes.py", "Genotypes.read"),
+        ("haptools/data/genotypes.py", "GenotypesPLINK.read"),
+    ]
+
+    def generate(self, rng, n, tier):
+        out = []
+        for i in range(n):
+            c = gen_content(rng, pmax=6)
+            if rng.random() < 0.45:
+                q = {"region": None, "samples": None, "ids": None, "max": None, "chunk": None, "vfmt": "vcf.gz"}
+            else:
+                q = gen_query(rng, c)
+            q["chunk"] = None if rng.random() < 0.6 else q["chunk"]
+            fmt = "pgen" if rng.random() < 0.5 else "vcf"
+            out.append({"content": c, "q": q, "fmt": fmt, "ops": gen_ops(rng, c, q)})
+        return out
+
+    def exhaustive(self, tier):
+        # a 3 x 3 object: every pair of requests out of a small set, in place / copy-and-follow / copy-and-stay
+        c = {"samples": ["a", "b", "c"], "planes": 3, "indexed": True,
+             "variants": [["v1", "1", 10, ["A", "T"]], ["v2", "1", 20, ["C", "T"]], ["v3", "2", 5, ["G", "T"]]],
+             "rows": [[[0, 1, 1], [1, 1, 0], [0, 0, 1]], [[1, 0, 1], [0, 0, 1], [1, 1, 1]], [[1, 1, 1], [0, 1, 0], [255, 255, 0]]]}
+        q = {"region": None, "samples": None, "ids": None, "max": None, "chunk": None, "vfmt": "vcf.gz"}
+        reqS = [None, ["c", "a", "b"], ["b", "a"], ["c"], ["a", "zz"], ["a", "a"], []]
+        reqV = [None, ["v3", "v1", "v2"], ["v2", "v1"], ["v3"], ["v1", "nope"], []]
+        first = [(S, V) for S in reqS[:4] for V in reqV[:4] if S is not None or V is not None]
+        second = [(S, V) for S in reqS for V in reqV if (S is None) != (V is None)]
+        out = []
+        for fmt in ("vcf", "pgen"):
+            for (S1, V1) in first:
+                for mode in ((True, False), (False, True), (False, False)):
+                    for (S2, V2) in second:
+                        out.append({"content": c, "q": q, "fmt": fmt, "ops": [
+                            {"S": S1, "V": V1, "inplace": mode[0], "follow": mode[1]},
+                            {"S": S2, "V": V2, "inplace": False, "follow": False}]})
+        return out
+
+    def run_impl(self, inp):
+        from pathlib import Path
+        from haptools.data import GenotypesVCF, GenotypesPLINK
+        from haptools.logging import getLogger
+
+        d = tempfile.mkdtemp(prefix="hv_c08s_")
+        try:
+            c, fmt = inp["content"], inp["fmt"]
+            q = inp["q"] if fmt == "pgen" else vcf_query(c, inp["q"])
+            if fmt == "pgen":
+                path = os.path.join(d, "x.pgen")
+                write_pgen(c, path)
+                cls, kw = GenotypesPLINK, {"chunk_size": q["chunk"]}
+            else:
+                path = os.path.join(d, "x." + q.get("vfmt", "vcf.gz"))
+                write_vcf(c, path)
+                cls, kw = GenotypesVCF, {}
+            quiet = getLogger("hv", "CRITICAL")
+            out = {"comp": None, "steps": []}
+            full = None
+            try:
+                full = cls(Path(path), log=quiet, **kw)
+                full.read()
+                out["full"] = {"ok": dump_obj(full)}
+            except Exception as e:  # noqa
+                out["full"] = {"err": err_kind(e), "cls": type(e).__name__, "msg": str(e)[:160]}
+                full = None
+            lg = logging.Logger("hv_capture")
+            h = CountWarnings()
+            lg.addHandler(h)
+            cur = None
+            try:
+                cur = cls(Path(path), log=lg, **kw)
+                cur.read(region=region_str(q["region"]), max_variants=q["max"],
+                         samples=None if q["samples"] is None else set(q["samples"]),
+                         variants=None if q["ids"] is None else set(q["ids"]))
+                out["read"] = {"ok": dump_obj(cur)}
+            except Exception as e:  # noqa
+                out["read"] = {"err": err_kind(e), "cls": type(e).__name__, "msg": str(e)[:160]}
+                cur = None
+            out["warned"] = h.n > 0
+            if cur is not None:
+                cur.log = quiet
+            if full is not None and cur is not None:
+                # read everything, then subset to what the restricted read returned
+                try:
+                    r = full.subset(samples=tuple(cur.samples), variants=tuple(str(x) for x in cur.variants["id"]))
+                    out["comp"] = {"ok": dump_obj(r)}
+                except Exception as e:  # noqa
+                    out["comp"] = {"err": err_kind(e), "cls": type(e).__name__, "msg": str(e)[:160]}
+            if cur is not None:
+                for op in inp["ops"]:
+                    st = {"before": {"ok": dump_obj(cur)}}
+                    out["steps"].append(st)
+                    try:
+                        r = cur.subset(samples=None if op["S"] is None else tuple(op["S"]),
+                                       variants=None if op["V"] is None else tuple(op["V"]),
+                                       inplace=op["inplace"])
+                        if op["inplace"]:
+                            r = cur
+                        st["obs"] = {"ok": dump_obj(r)}
+                        if op["follow"]:
+                            cur = r
+                    except Exception as e:  # noqa
+                        st["obs"] = {"err": err_kind(e), "cls": type(e).__name__, "msg": str(e)[:160]}
+                        break
+            return out
+        finally:
+            shutil.rmtree(d, ignore_errors=True)
+
+    def encode(self, inp, obs):
+        E = Enc()
+        c, fmt = inp["content"], inp["fmt"]
+        q = inp["q"] if fmt == "pgen" else vcf_query(c, inp["q"])
+        g = E.geno_in(c)
+        ids = lambda l: L.lst(l, lambda x: L.z(E.i(("id", x))))
+        sam = lambda l: L.lst(l, E.s)
+        reg = "None"
+        if q["region"] is not None:
+            ctg, a, b = q["region"]
+            reg = f"(Some ({L.z(E.i(('chrom', ctg)))}, {L.opt(a, L.z)}, {L.opt(b, L.z)}))"
+        qt = f"(mkq {reg} {L.opt(q['samples'], sam)} {L.opt(q['ids'], ids)} {L.opt(q['max'], L.z)})"
+        head = (f"(mkqc {g} {qt} {L.b(fmt == 'pgen')} {L.opt(q['chunk'] if fmt == 'pgen' else None, L.z)} "
+                f"{L.b(STRICT_EMPTY_SAMPLE_SELECTION)} {L.b(STRICT_SUBSET_AFTER_EMPTY_READ)}")
+        if not (isinstance(obs, dict) and "full" in obs):
+            e = f"(Err {oerr(obs)})"
+            return f"{head} {e} {e} false None [])"
+        steps = []
+        for op, st in zip(inp["ops"], obs["steps"]):
+            steps.append(f"(mkss {L.opt(op['S'], sam)} {L.opt(op['V'], ids)} {L.b(op['inplace'] or op['follow'])} "
+                         f"{E.rgeno(st['before'])} {E.rgeno(st['obs'])})")
+        comp = "None" if obs["comp"] is None else f"(Some {E.rgeno(obs['comp'])})"
+        return (f"{head} {E.rgeno(obs['full'])} {E.rgeno(obs['read'])} {L.b(obs['warned'])} {comp} "
+                f"[{'; '.join(steps)}])")
+
+    def nontrivial(self, inp, obs):
+        # at least two subset() calls were made, or the read was restricted
+        n = len(obs["steps"]) if isinstance(obs, dict) and "steps" in obs else 0
+        return bool(inp["content"]["variants"]) and (n >= 2 or selects(inp["content"], inp["q"])[1])
+
+    def classes(self, inp, obs):
+        c, q = inp["content"], inp["q"]
+        out = [inp["fmt"], "ops=%d" % len(inp["ops"])]
+        out += [t for t in selects(c, q)[0] if t.startswith(("file-order", "vcf-unindexed", "empty-match", "p=0", "samples="))]
+        out.append("read=" + ("restricted" if selects(c, q)[1] else "everything"))
+        if isinstance(obs, dict) and "steps" in obs:
+            kept_reorder = False
+            for op, st in zip(inp["ops"], obs["steps"]):
+                b = st["before"]["ok"]
+                mode = "inplace" if op["inplace"] else "copy-follow" if op["follow"] else "copy-stay"
+                kS, kV = req_kind(op["S"], b["samples"]), req_kind(op["V"], [v[0] for v in b["variants"]])
+                out += [mode, "S=" + kS, "V=" + kV]
+                if kept_reorder:
+                    out.append("subset-after-kept-reorder")
+                if (op["inplace"] or op["follow"]) and ("reorder-all" in kS or "reorder-all" in kV):
+                    kept_reorder = True
+                if "err" in st.get("obs", {}):
+                    out.append("step-err%d" % st["obs"]["err"])
+            for k in ("full", "read"):
+                if "err" in obs[k]:
+                    out.append(f"{k}-err{obs[k]['err']}")
+        return out
+
+    def shrink(self, inp):
+        c, q, ops = inp["content"], inp["q"], inp["ops"]
+        for j in range(len(ops) - 1, -1, -1):
+            yield dict(inp, ops=ops[:j] + ops[j + 1:])
+        for key in ("chunk", "max", "samples", "ids", "region"):
+            if q[key] is not None:
+                yield dict(inp, q=dict(q, **{key: None}))
+        for j, op in enumerate(ops):
+            for key in ("S", "V"):
+                if op[key] is not None:
+                    yield dict(inp, ops=ops[:j] + [dict(op, **{key: None})] + ops[j + 1:])
+            if op["follow"] and not op["inplace"]:
+                yield dict(inp, ops=ops[:j] + [dict(op, follow=False)] + ops[j + 1:])
+        p, n = len(c["variants"]), len(c["samples"])
+        if p > 1:
+            for j in range(p):
+                yield dict(inp, content=dict(c, variants=c["variants"][:j] + c["variants"][j + 1:],
+                                             rows=c["rows"][:j] + c["rows"][j + 1:]))
+        if n > 1:
+            for k in range(n):
+                yield dict(inp, content=dict(c, samples=c["samples"][:k] + c["samples"][k + 1:],
+                                             rows=[r[:k] + r[k + 1:] for r in c["rows"]]))
+        for j, op in enumerate(ops):
+            for key in ("S", "V"):
+                if op[key]:
+                    for i in range(len(op[key])):
+                        yield dict(inp, ops=ops[:j] + [dict(op, **{key: op[key][:i] + op[key][i + 1:]})] + ops[j + 1:])
+
+    def mutate(self, inp, rng):
+        c, q = inp["content"], inp["q"]
+        for _ in range(40):
+            yield dict(inp, ops=gen_ops(rng, c, q))
+        yield dict(inp, fmt="pgen" if inp["fmt"] == "vcf" else "vcf")
+
+    def signature(self, inp, obs):
+        if not isinstance(obs, dict) or "full" not in obs:
+            return "seq: interpreter crash/timeout"
+        c = inp["content"]
+        q = inp["q"] if inp["fmt"] == "pgen" else vcf_query(c, inp["q"])
+        nosamp = q["samples"] is not None and not (set(q["samples"]) & set(c["samples"]))
+        parts, hollow_hit = [], False
+        for k in ("full", "read", "comp"):
+            if obs.get(k) and "err" in obs[k]:
+                parts.append(f"{k} raised {obs[k].get('cls')}")
+        if "ok" in obs["full"] and obs.get("comp") and "err" in obs["comp"]:
+            f = obs["full"]["ok"]
+            hollow_hit = f["shape"][:2] == [0, 0] and bool(f["samples"] or f["variants"])
+        # the first subset() call that did not do what was asked, described by what preceded it
+        kept = []
+        for j, (op, st) in enumerate(zip(inp["ops"], obs["steps"])):
+            b = st["before"]["ok"]
+            bs, bv = b["samples"], [v[0] for v in b["variants"]]
+            mode = "in-place" if op["inplace"] else "copying"
+            if (op["S"] is not None and len(set(bs)) < len(bs)) or (op["V"] is not None and len(set(bv)) < len(bv)):
+                break       # duplicate names: outside the domain from here on
+            hollow = b["shape"][:2] == [0, 0] and bool(bs or bv)
+            after = ("after " + ", then ".join(kept)) if kept else "as the first call"
+            o = st.get("obs", {})
+            if "err" in o:
+                parts.append(f"{mode} subset {after} raised {o.get('cls')}"
+                             + (" (object of a read that matched nothing: array without cells)" if hollow else ""))
+                hollow_hit = hollow_hit or hollow
+                break
+            r = o["ok"]
+            wantS = bs if op["S"] is None else [x for x in op["S"] if x in bs]
+            wantV = bv if op["V"] is None else [x for x in op["V"] if x in bv]
+            if r["samples"] != wantS or [v[0] for v in r["variants"]] != wantV:
+                parts.append(f"{mode} subset {after} returned other samples/variants than requested")
+                break
+            if not hollow:
+                cell = {(bv[i], bs[k]): b["rows"][i][k] for i in range(len(bv)) for k in range(len(bs))}
+                if any(r["rows"][i][k] != cell[(wantV[i], wantS[k])] for i in range(len(wantV)) for k in range(len(wantS))):
+                    parts.append(f"{mode} subset {after} returned the calls of other samples/variants under the requested names")
+                    break
+            if op["inplace"] or op["follow"]:
+                kS, kV = req_kind(op["S"], bs), req_kind(op["V"], bv)
+                what = "re-ordering" if ("reorder-all" in kS or "reorder-all" in kV) and len(wantS) == len(bs) \
+                    and len(wantV) == len(bv) else "shrinking" if len(wantS) < len(bs) or len(wantV) < len(bv) else "identity"
+                kept.append(f"a kept {what} {mode} subset")
+        if not parts:
+            parts.append("restricted read differs from the full read filtered in file order, or from read()+subset()")
+        return (f"seq[{inp['fmt']}]: {'; '.join(parts)}; no-sample-selected={nosamp} "
+                f"subset-on-array-without-cells={bool(hollow_hit)}")
+
+
+RELATIONS = [Read(), Subset(), Seq()]
 
 LEVEL_TEXT = (
     "Coq theorems, for every file content with unique IDs and every query (region, sample set, ID set, max_variants, chunk "
